@@ -23,7 +23,7 @@ EXPLANATION = (
     "(same-compiler) component programs go through the same compiler as the complete program (C01 obligations apply); "
     "(skip / isdir, shared with C13) a cancellation skips exactly the judged directory; errors pass through untouched "
     "(C20.forward).")
-RULES = "C02.prune (GUARD), C02.gate (PROV+SIBLING), C02.relative (TABLE), C02.stop (EFFECT), C02.same-compiler (WHO), C13.skip, C13.isdir"
+RULES = "C02.prune (GUARD), C02.gate (PROV+SIBLING), C02.relative (TABLE), C02.stop (EFFECT), C02.component (TABLE), C02.same-compiler (WHO), C13.skip, C13.isdir"
 
 
 def run(ctx):
@@ -40,13 +40,63 @@ def run(ctx):
     from . import c14
     c14.report_cells(F, R, "C02.relative", ("relative", "root"), 230)
     rule_stop(F, R, 3 if ctx.tier == "quick" else 4)
+    rule_component(F, R)
     rule_same_compiler(F, R)
 
 
+def component_programs(F, comps):
+    """Evaluates WalkProgram::compile on a glob whose components are `comps` (lists of abstract tokens), with the
+    compiler stubbed: Glob::compile(component i) = Ok(?program(i)).  -> list of program values | None"""
+    it = F.find("walk::glob::WalkProgram::compile")
+    insts = F.instances_of(it)
+    inst = insts[0] if insts else False
+    lists = [RList(list(c)) for c in comps]
+    values = [Adt("token::Component", "Component", {"0": l}) for l in lists]
+
+    def index_of(component):
+        l = strip(strip(component).fields["0"])
+        for i, x in enumerate(lists):
+            if x is l or (isinstance(l, RList) and l.items and x.items and l.items[0] is x.items[0]):
+                return i
+        return "?"
+    stubs = {
+        "token::Token::components": lambda I, a, fn, e: models.iter_of(I, RList(list(values)), by_ref=False),
+        "Glob::compile": lambda I, a, fn, e: ok(Sym("program(%s)" % index_of(a[0]))),
+        "token::TokenTree::as_token": lambda I, a, fn, e: a[0],
+    }
+    I = W.new_interp(F, stubs)
+    res = strip(tabulate.single(I.explore(lambda: I.call_item(it, [Ref(Place(Cell(Sym("tree"))))], inst=inst))))
+    if isinstance(res, Adt) and res.variant == "Ok" and isinstance(strip(res.fields["0"]), RList):
+        return list(strip(res.fields["0"]).items)
+    return None
+
+
+def compiled_index(v, depth=0):
+    """The i of the ?program(i) a component program value is made of (directly or inside wrapper types) | None"""
+    v = strip(v)
+    if isinstance(v, Sym):
+        return int(v.name[8:-1]) if v.name.startswith("program(") and v.name[8:-1].isdigit() else None
+    if isinstance(v, Adt) and depth < 4:
+        found = [compiled_index(x, depth + 1) for x in v.fields.values()]
+        found = [x for x in found if x is not None]
+        return found[0] if len(found) == 1 else None
+    return None
+
+
 def rule_walker(F, R):
+    from . import tokens as T
     cl = c20.walker_closure(F)
     uv = c20.upvars(F, cl)
     n = 0
+    # the component programs the walker holds are the ones WalkProgram::compile builds (for variant components)
+    programs_for = {}
+    for k in range(0, 4):
+        ps = component_programs(F, [[T.leaf("zom", "k%d" % i)] for i in range(k)])
+        if ps is None or len(ps) != k or [compiled_index(x) for x in ps] != list(range(k)):
+            R.fail("C02.prune", "programs=%d" % k, "WalkProgram::compile for %d variant component(s) is unanalysable or does not give one compiled "
+                   "program per component: %r" % (k, ps), cl.where())
+            return
+        programs_for[k] = ps
     # lead: the relative segment of a rooted glob is the whole path and starts with a RootDir component, which has no
     # component program; extra: components of the relative segment that come from the glob's prefix (pivot)
     # lead: the relative segment of a rooted glob is the whole path and starts with a RootDir component, which has no
@@ -71,7 +121,8 @@ def rule_walker(F, R):
                 return I.top("as_os_str of %r" % (c,))
 
             def is_match(I, a, fn, e):
-                prog = c13._n(strip(a[0]))
+                ix = compiled_index(a[0])
+                prog = "p%s" % ("?" if ix is None else ix + 1)
                 cand = c13._n(strip(a[1]))
                 regex_calls.append((prog, cand))
                 if cand != "cand(c%s)" % prog[1:]:
@@ -99,7 +150,7 @@ def rule_walker(F, R):
             def run():
                 del regex_calls[:]
                 env = {}
-                program = Adt("walk::glob::WalkProgram", "WalkProgram", {"complete": Sym("complete"), "components": RList([Sym("p%d" % (i + 1)) for i in range(k)])})
+                program = Adt("walk::glob::WalkProgram", "WalkProgram", {"complete": Sym("complete"), "components": RList(list(programs_for[k]))})
                 walker = Adt("walk::glob::GlobWalker", "GlobWalker", {"anchor": Sym("anchor"), "program": program})
                 for name, var in uv.items():
                     env[var] = Cell(walker if name == "self" else Sym(name))
@@ -178,34 +229,93 @@ def rule_walker(F, R):
 
 
 def rule_stop(F, R, maxlen):
+    from . import tokens as T
     it = F.find("walk::glob::WalkProgram::compile")
-    insts = F.instances_of(it)
-    inst = insts[0] if insts else False
     n = 0
     for length in range(0, maxlen + 1):
         for pattern in itertools.product((False, True), repeat=length):
-            comps = [Adt("token::Component", "Component", {"0": RList([Adt("Tok", "Tok", {"boundary": b, "i": i})])}) for i, b in enumerate(pattern)]
-            stubs = {
-                "token::Token::components": lambda I, a, fn, e: models.iter_of(I, RList(list(comps)), by_ref=False),
-                "token::Token::has_boundary": lambda I, a, fn, e: strip(strip(a[0]).fields["boundary"]),
-                "Glob::compile": lambda I, a, fn, e: ok(Sym("program(%s)" % strip(strip(strip(a[0]).fields["0"]).items[0]).fields["i"])),
-                "token::TokenTree::as_token": lambda I, a, fn, e: a[0],
-            }
-            I = W.new_interp(F, stubs)
-            res = strip(tabulate.single(I.explore(lambda: I.call_item(it, [Ref(Place(Cell(Sym("tree"))))], inst=inst))))
-            got = None
-            if isinstance(res, Adt) and res.variant == "Ok" and isinstance(strip(res.fields["0"]), RList):
-                got = [c13._n(x) for x in strip(res.fields["0"]).items]
+            comps = [[T.leaf("tree", "k%d" % i)] if b else [T.leaf("lit", "k%d" % i), T.leaf("zom", "z%d" % i)] for i, b in enumerate(pattern)]
+            ps = component_programs(F, comps)
+            got = None if ps is None else [compiled_index(x) for x in ps]
             kk = 0
             while kk < length and not pattern[kk]:
                 kk += 1
-            want = ["program(%d)" % i for i in range(kk)]
+            want = list(range(kk))
             n += 1
             R.check(got == want, "C02.stop", "components=%s" % "".join("B" if b else "-" for b in pattern), "programs for the first %d component(s)" % kk, it.where(),
-                    fail_msg="for components with boundaries at %s WalkProgram::compile builds %r, expected %r: programs must cover "
+                    fail_msg="for components with boundaries at %s WalkProgram::compile builds programs of components %r, expected %r: programs must cover "
                              "exactly the maximal boundary-free prefix (after `**` the component index no longer matches the path depth)" % (
-                                 [i for i, b in enumerate(pattern) if b], got, want))
+                                 [i for i, b in enumerate(pattern) if b], got if ps is None else [c13._n(x) if compiled_index(x) is None else compiled_index(x) for x in ps], want))
     R.floor("C02.stop", "component lists", n, 15)
+
+
+LITERAL_COMPONENTS = {
+    # name -> (tokens as (text, case-insensitive) literals, candidates that the compiled expression accepts)
+    "Ab": ([("Ab", False)], {"Ab"}),
+    "(?i)Ab": ([("Ab", True)], {"Ab", "aB"}),
+    "A(?i)b": ([("A", False), ("b", True)], {"Ab", "AB"}),
+}
+CANDIDATES = ["Ab", "aB", "AB", "zz", "Abc"]
+
+
+def rule_component(F, R):
+    """C02.component: a component program that is not the compiled expression of its component (a fast path) must
+    accept exactly the names the expression accepts - decided for literal components, the only kind for which a
+    comparison without the compiler is plausible, by evaluating the walker closure on concrete names."""
+    from . import tokens as T
+    cl = c20.walker_closure(F)
+    uv = c20.upvars(F, cl)
+    n = 0
+    for name, (lits, accepted) in LITERAL_COMPONENTS.items():
+        toks = []
+        for i, (text, ci) in enumerate(lits):
+            t = T.leaf("lit-ci" if ci else "lit", "l%d" % i)
+            strip(strip(strip(t.fields["topology"]).fields["0"]).fields["0"]).fields["text"] = text
+            toks.append(t)
+        ps = component_programs(F, [toks])
+        n += 1
+        if ps is None or len(ps) != 1:
+            R.fail("C02.component", name, "WalkProgram::compile for the literal component %s is unanalysable: %r" % (name, ps), cl.where())
+            continue
+        if compiled_index(ps[0]) == 0:
+            R.ok("C02.component", name, "the component program is the compiled expression of the component (C01 applies)", cl.where())
+            continue
+        for cand in CANDIDATES:
+            stubs = {
+                "walk::glob::root_relative_paths": lambda I, a, fn, e: Tup([Sym("root"), Sym("relative")]),
+                "<walk::TreeEntry as walk::Entry>::path": lambda I, a, fn, e: Sym("path(entry)"),
+                "<walk::TreeEntry as walk::Entry>::depth": lambda I, a, fn, e: 1,
+                "std::path::Path::components": lambda I, a, fn, e, cand=cand: models.iter_of(I, RList([Adt("std::path::Component", "Normal", {"0": cand})]), by_ref=False),
+                "std::path::Component::<'a>::as_os_str": lambda I, a, fn, e: strip(strip(a[0]).fields.get("0")),
+                "<CandidatePath as std::convert::From>::from": lambda I, a, fn, e: strip(a[0]),
+                "<CandidatePath as std::convert::AsRef>::as_ref": lambda I, a, fn, e: strip(a[0]),
+                "regex::Regex::captures": lambda I, a, fn, e: some(Sym("captures")),
+                "<capture::MatchedText as std::convert::From>::from": lambda I, a, fn, e: Sym("matched"),
+                "capture::MatchedText::into_owned": lambda I, a, fn, e: strip(a[0]),
+            }
+            I = W.new_interp(F, stubs)
+
+            def run():
+                env = {}
+                program = Adt("walk::glob::WalkProgram", "WalkProgram", {"complete": Sym("complete"), "components": RList(list(ps))})
+                walker = Adt("walk::glob::GlobWalker", "GlobWalker", {"anchor": Sym("anchor"), "program": program})
+                for nm, var in uv.items():
+                    env[var] = Cell(walker if nm == "self" else Sym(nm))
+                sep = W.separation("filtrate", ok(Adt("walk::TreeEntry", "TreeEntry", {"entry": Sym("dirent")})))
+                return I.call_closure(Closure(cl.key, env), [c13.cancellation(), sep])
+            cases = I.explore(run)
+            inst = "%s/candidate=%s" % (name, cand)
+            if len(cases) != 1 or isinstance(cases[0].result, (Top, Panicked)):
+                R.fail("C02.component", inst, "the walker's decision with the uncompiled component program %r is unanalysable: %r" % (ps[0], [c.result for c in cases][:2]), cl.where())
+                continue
+            state, _payload = W.classify(cases[0].result)
+            rejected = state == "tree"
+            want_reject = cand not in accepted
+            R.check(rejected == want_reject, "C02.component", inst, "%s" % ("pruned" if want_reject else "kept"), cl.where(),
+                    fail_msg="the glob component %s %s the name `%s`, but the walker's component program %r %s it: %s" % (
+                        name, "does not match" if want_reject else "matches", cand, ps[0], "keeps" if not rejected else "prunes",
+                        "matches beneath it are lost" if rejected else "a directory that cannot match is read"))
+    R.floor("C02.component", "literal component shapes", n, 3)
 
 
 def rule_same_compiler(F, R):
